@@ -87,4 +87,29 @@ def U.depths : U → List (Nat × Rat)
   | .tip x => [(x, 0)]
   | .node c1 l1 c2 l2 => (c1.depths.map fun p => (p.1, p.2 + l1)) ++ (c2.depths.map fun p => (p.1, p.2 + l2))
 
+/-! ### a computable certificate (evaluated by the driver on every instance) -/
+
+def liveB (order : List (Option Entry)) (a : Nat) : Bool := (order.getD a none).isSome
+
+/-- decidable form of "the selected pair is a pair of distinct live clusters at minimal live distance" -/
+def goodSelB (n : Nat) (big : Rat) (st : State) : Bool :=
+  liveB st.order (select n big st.m).2.1 && liveB st.order (select n big st.m).2.2 &&
+  decide ((select n big st.m).2.1 ≠ (select n big st.m).2.2) &&
+  (List.range n).all fun a => (List.range n).all fun b =>
+    !(liveB st.order a && liveB st.order b && decide (a ≠ b)) ||
+    decide (get (select n big st.m).1 (select n big st.m).2.1 (select n big st.m).2.2 ≤ get (select n big st.m).1 a b)
+
+/-- the check holds at each of the next `k` passes -/
+def allGood (n : Nat) (big : Rat) : Nat → State → Bool
+  | 0, _ => true
+  | k + 1, st => goodSelB n big st && allGood n big k (step n big st)
+
+/-- the state `upgma` starts from -/
+def init (n : Nat) (d : Mat) (big : Rat) : State :=
+  { m := tab n fun a b => if a = b then get d a b + big else get d a b,
+    order := (List.range n).map fun a => some ({ tree := .tip a, isTip := true, height := 0 } : Entry),
+    tree := none }
+
+def upgmaCertified (n : Nat) (d : Mat) (big : Rat) : Bool := allGood n big (n - 1) (init n d big)
+
 end CogentModel.UPGMA
